@@ -303,7 +303,7 @@ theorem linv_submitStep {p : Params} {s : St} {t : Nat} {r : St × Bool} (h : LI
         · rw [if_pos hsh] at hr; simp at hr
         · rw [if_neg hsh] at hr; simp at hr; subst hr
           rw [setPhase_eq ht]
-          exact linv_push h ht (by simpa using hsh)
+          exact (linv_push h ht (by simpa using hsh)).congr rfl rfl rfl rfl rfl rfl rfl rfl rfl rfl rfl
       all_goals
         simp at hr; subst hr
         rw [setReturned_eq ht]
@@ -965,6 +965,7 @@ theorem linv_clientStep {p : Params} {s : St} {c : Client} {r : St × Client} (h
       · exact h.congr rfl rfl rfl rfl rfl rfl rfl rfl rfl rfl rfl
       · exact h
       · exact h
+      · exact h
   case sub t =>
     simp only [clientStep, List.mem_map] at hr
     obtain ⟨q, hq, rfl⟩ := hr
@@ -1027,6 +1028,18 @@ theorem linv_clientStep {p : Params} {s : St} {c : Client} {r : St × Client} (h
     by_cases hz : s.pending = 0
     · rw [if_pos hz] at hr; simp at hr; subst hr; exact h
     · rw [if_neg hz] at hr; simp at hr
+  case wa n =>
+    simp only [clientStep] at hr
+    split at hr
+    · simp at hr
+    · split at hr
+      · simp at hr; subst hr; exact h
+      · simp at hr; subst hr; exact h.congr rfl rfl rfl rfl rfl rfl rfl rfl rfl rfl rfl
+  case waSleep n =>
+    simp only [clientStep] at hr
+    split at hr
+    · simp at hr; subst hr; exact h.congr rfl rfl rfl rfl rfl rfl rfl rfl rfl rfl rfl
+    · simp at hr
 
 
 end Hive.WP
